@@ -15,7 +15,8 @@ INLINE = ['a', ' ', '*', '_', '`', '[', ']', '(', ')', '<', '>', '!', '\\', '&',
 CONTEXTS = ['{w}\n', '# {w}\n', '| h | x |\n|---|---|\n| {w} | y |\n', '- {w}\n']
 BOUNDS = {'quick': dict(lines=3, inline=3, edit=None), 'thorough': dict(lines=4, inline=4, edit=spaces.EDIT_SMALL)}
 TOKEN_SETS = ['Html', 'Markdown', 'LaTeX', 'XWiki20']
-L = spaces.LINES + spaces.LINES_C01_EXTRA + ['0. z', '010) t', '  1. n']
+# '| a | b | c |' / '| 1 |': a header wider than the delimiter row '|---|---|' and a body row narrower than both
+L = spaces.LINES + spaces.LINES_C01_EXTRA + ['0. z', '010) t', '  1. n', '| a | b | c |', '| 1 |']
 
 SPAN_SINGLE_RAW = {'InlineCode', 'AutoLink', 'EscapeSequence'}
 SPAN_LEAF = {'RawText', 'LineBreak', 'HtmlSpan', 'Math', 'XWikiBlockMacroStart', 'XWikiBlockMacroEnd', 'LinkReferenceDefinition'}
